@@ -54,6 +54,27 @@ func fixedCases() []Case {
 		{Kind: "bytes", Cls: "fixed", Entry: "file", Opts: all, Toks: []Tok{{S: "# h\n\n| a |\n|-|\n| b |\n\n$$\n\\frac{1}{2}\n$$\n\n- [x] t\n\n[^1]: note\n\ntext[^1] ![img](x.png) <b>raw</b>\n", N: 1}}},
 		{Kind: "bytes", Cls: "fixed", Entry: "bytes", Opts: Opts{}, Toks: []Tok{{B: []byte{0xff, 0xfe, 0x00, '#', ' ', 0x80, '\n', '`'}, N: 3}}},
 	}
+	// every entry point on a document whose first line is part of the syntax (indented code, deeper second line)
+	lead := append([]Blk{{K: "code", Lines: []string{"total := 0", "    total += price", "", "  ret"}}}, showcase()...)
+	for _, e := range []string{"bytes", "string", "file", "batch"} {
+		out = append(out, Case{Kind: "ast", Cls: "clean", Entry: e, Opts: all, Doc: lead})
+	}
+	out = append(out, Case{Kind: "ast", Cls: "clean", Entry: "batch", Opts: all, Doc: showcase(), Warm: []string{warmPool[0], warmPool[3]}})
+	// roots, fractions and scripts whose index / argument is a digit, a lower- or upper-case letter, a command,
+	// an expression, empty - inline, display, in a cell
+	fdoc := []Tok{{S: "Roots $", N: 1}}
+	for i, f := range []string{`\sqrt[3]{x}`, `\sqrt[n]{x}`, `\sqrt[N]{x}`, `\sqrt[q]{a^2+b^2}`, `\sqrt[\alpha]{\frac{A}{B}}`, `\sqrt[k+1]{x_{IJ}^{QR}}`, `\sqrt[]{x}`,
+		`\sqrt [M] {\sqrt[P]{y}}`, `\frac{\sqrt[Z]{u}}{\sqrt{V}}`, `x^{Q}_{R}+\sum_{K=1}^{N} K^{-S}`, `\left\{ \binom{N}{K} \right\}`} {
+		if i > 0 {
+			fdoc = append(fdoc, Tok{S: "$ and $", N: 1})
+		}
+		fdoc = append(fdoc, Tok{S: f, N: 1, F: true})
+	}
+	fdoc = append(fdoc, Tok{S: "$.\n\n$$\n", N: 1}, Tok{S: `\sqrt[Q]{a^2 + b^2} = \sqrt[2N]{c}`, N: 1, F: true}, Tok{S: "\n$$\n\n| a | $", N: 1},
+		Tok{S: `\sqrt[W]{t}`, N: 1, F: true}, Tok{S: "$ |\n|---|---|\n| $", N: 1}, Tok{S: `\sqrt[7]{T}`, N: 1, F: true}, Tok{S: "$ | b |\n", N: 1})
+	for _, e := range []string{"bytes", "file"} {
+		out = append(out, Case{Kind: "bytes", Cls: "formula", Entry: e, Opts: all, Toks: fdoc})
+	}
 	// the repository's own Markdown files as totality seeds
 	for _, f := range []string{"README.md", "pkg/markdown/README.md", "CHANGELOG.md"} {
 		repo := os.Getenv("VERIF_REPO")
@@ -107,6 +128,9 @@ func selfTest() error {
 		if got := placeUnits(tc.units, tc.s); fmt.Sprint(got) != fmt.Sprint(tc.want) {
 			return fmt.Errorf("placeUnits(%q,%q) = %v, want %v", tc.units, tc.s, got, tc.want)
 		}
+	}
+	if err := pkgreadSelfTest(); err != nil {
+		return err
 	}
 	// GFM off: the same text reads differently (no tables, no strike-through) -> must be seen as a disagreement
 	html, _ = goldmarkHTML([]byte(c.Markdown()), Opts{})
